@@ -85,7 +85,7 @@ CHECKS.update({
     ),
     "C13": dict(
         engine="sess", level="fault_enumeration", args=[],
-        deadline=dict(quick=170, thorough=1500),
+        deadline=dict(quick=240, thorough=1500),
         rule="H2 full stack on the scripted socket. role {initiator, acceptor} x buffer {0,1,10} x life-cycle point {connected without logon, logged on idle, two inbound messages in flight, two application sends in flight with the peer not reading, logout sent} x cause {peer EOF, peer reset, read error mid-message, write error, write blocked past the deadline, Initiator.Close / Acceptor.Close, handler.Stop, Session.Stop} x POSITION: the cause is fired by an urgent task at scheduler step k after the life-cycle point for every k (stride 2 in the quick tier beyond 120) up to the length of the undisturbed run (cap 400), so every relative timing of cause and pending hand-offs is enumerated; plus delay-bounded (1) schedule deviations on selected cells. After the cause 60 virtual seconds pass, a late Send is issued, 30 more seconds pass, the acceptor is closed. Oracle: serving call returned, socket closed, disconnect/stopped notification for peer-caused endings, the late Send returned, no task spawned by library code is left. A distinct non-trivial case = distinct (role, buffer, point, cause, observed outcome vector).",
         assumptions=SESS_ASSUME + ["heartbeat interval 1 s, write deadline 5 s, close timeout 1 s; settling time 60 + 30 (+10) virtual seconds",
                                    "fault positions are enumerated at scheduler-step granularity of the default schedule; other schedules only through the delay-bounded phase"],
@@ -135,7 +135,7 @@ CHECKS.update({
     ),
     "C20": dict(
         engine="sess", race=True, level="model_checking", args=[],
-        deadline=dict(quick=170, thorough=1500),
+        deadline=dict(quick=240, thorough=1500),
         rule="scenario of intended use per role {acceptor, initiator} x ending {Session.Stop + peer answer, peer Logout, silent peer -> TestRequest -> Disconnect}: two application sender tasks (2 sends each, 700 ms apart), a task polling IsLogged, a task registering event handlers while events fire, the inbound dispatch path processing TestRequest, ResendRequest over stored messages, Heartbeat, application message, Logout; both timer tasks actually expiring (heartbeat interval 1 s, 2.5 s of inbound silence); bundled memory store; handler stopped at the end. All schedules within the delay bound (quick 1, thorough 2), each executed in the race-gate build with the Go race detector as per-execution oracle; a report is attributed to the execution after which the detector log grew and reduced to {innermost library function of access A <-> of access B}. A distinct non-trivial case = distinct (scenario, deviation cost) pair; evaluations = executions under the detector.",
         assumptions=SESS_ASSUME + ["race-gate construction (DESIGN.md 2.6): scheduler hand-offs are hidden from the detector (//go:norace flag spinning), program-level edges are carried by real primitives; extra edges (per-channel mutex, goroutine creation by the carrier of the scheduler for AfterFunc bodies) can only hide races, never invent them",
                                    "the detector reports a racing pair of code locations once per process; signatures are function-level"],
@@ -150,7 +150,7 @@ CHECKS.update({
 
 CHECKS["C12"] = dict(
     engine="gen", level="exploration", args=[],
-    deadline=dict(quick=170, thorough=1500),
+    deadline=dict(quick=240, thorough=1500),
     rule="schemas: a compact 3-message schema (nested group, component, enum, every cast incl. Raw and Time) and EVERY single-site mutation of it under the operator set {remove member, swap adjacent members, toggle required, rename a field consistently, add a field of each mapped type, add a message, add a component reference, add a group, change a type-mapping entry to each other cast, duplicate field number (must be rejected), duplicate message type (must be rejected)}; source/fix44.xml, its comparison with tests/fix44 (declaration for declaration, go/ast), and a strided subset (quick 1/9, thorough 1/2) of its single-site mutations; generator/testdata/fix.4.4.xml unmodified (must be rejected) and with the duplicate removed (~90 messages). Per accepted schema: two runs byte-identical, output directory forms ./p, a/b/p, absolute, ./x/../y/p give the same package `p`, the package compiles against the working tree, and an XML-derived driver (own XML reader, type table and naming rules) checks every constant, one-setter-one-field on the wire, getters, member order with everything populated (components, groups, header), group AddEntry/Entries and the typed argument list of every populating constructor. A distinct non-trivial case = a distinct schema of the family.",
     assumptions=["bounded-exhaustive over the stated mutation neighbourhood only", "trusted: the Go compiler (type checking of the driver against the generated API is part of the oracle), xml.etree, go/ast printer",
                  "the driver exercises serialisation and accessors of generated code; parsing into generated types is C02's subject"],
